@@ -61,8 +61,6 @@ type Term struct {
 	Args []*Term
 	Val  uint64
 	Name string
-	// emitted marks the solver epoch in which a define-fun for this term was sent.
-	emitted int
 }
 
 type termKey struct {
